@@ -385,6 +385,7 @@ impl Write for SimDisk {
             }
             Some(FaultKind::Fail) => {
                 s.fire("F-WE");
+                if std::env::var("VERIF_DEBUG").is_ok() { eprintln!("FAILW k={} pos={} len={} buf={:?}", s.k, pos, buf.len(), &buf[..buf.len().min(8)]); }
                 s.record(Seam::Write, pos, req, 0, false);
                 return Err(other("injected write error"));
             }
@@ -505,6 +506,7 @@ impl Seek for SimDisk {
             }
             Some(FaultKind::Fail) | Some(FaultKind::Torn { .. }) => {
                 s.fire(DiskState::fail_name(Seam::Seek));
+                if std::env::var("VERIF_DEBUG").is_ok() { eprintln!("FAILS k={} from={:?} curpos={}", s.k, from, pos); }
                 s.record(Seam::Seek, pos, 0, 0, false);
                 return Err(other("injected seek error"));
             }
